@@ -16,6 +16,8 @@ use rustfft::Fft;
 use serde_json::{json, Value};
 use std::sync::{Arc, Condvar, Mutex};
 
+/// yield points per call in spec/Threads.tla (constant Steps of MC_Threads.cfg)
+const ABSTRACT_STEPS: usize = 4;
 const LENS: [usize; 14] = [6, 30, 37, 47, 60, 64, 96, 120, 128, 210, 256, 384, 1009, 1031];
 
 struct Sched {
@@ -118,7 +120,11 @@ fn forced_schedules<T: Real + Elem>(ctx: &mut Ctx, pl: &Planned<T>, given: &[Vec
     }
     // schedules enumerated by TLC (spec/Threads.tla) over abstract calls; step count 99 means "run to the end"
     for g in given {
-        schedules.push(g.iter().map(|&(t, s)| (t, if s >= 90 { usize::MAX } else { s })).collect());
+        let scale = |t: usize, s: usize| -> usize {
+            let y = if t == 0 { ya } else { yb };
+            (s * y + ABSTRACT_STEPS - 1) / ABSTRACT_STEPS
+        };
+        schedules.push(g.iter().map(|&(t, s)| (t, if s >= 90 { usize::MAX } else { scale(t, s) })).collect());
     }
     for (si, segs) in schedules.iter().enumerate() {
         ctx.case(format!("forced {} {} {} {} #{}", pl.n, T::ELEM, dir_name(pl.dir), pl.iid, si), true);
